@@ -10,7 +10,25 @@
    predicate language of the generator in flag_sound). *)
 From Coq Require Import List Bool Arith.
 Require Import XV.PatDefs XV.PatModel XV.PatModel2 XV.PatModel3.
+Require XV.GenPat XV.PatSource.
 Import ListNotations.
+
+(** Tie to the current source: the case structure of stepPattern, the node-type guards, the op codes the
+    compiler emits and the positional flag, as extracted from /repo by translator/gen_pat.py on this run
+    (coq/GenPat.v), are the ones the model was written against (coq/PatSource.v). *)
+Theorem model_mirrors_source :
+  GenPat.step_pattern_cases = PatSource.modelled_cases /\
+  GenPat.imm_excluded_types = PatSource.imm_excluded /\
+  GenPat.any_cases_shared = PatSource.any_shared /\
+  GenPat.any_document_excluded_for = PatSource.any_document_excluded /\
+  GenPat.root_walk_up_after = PatSource.root_walk_up /\
+  GenPat.name_test_attribute_axes = PatSource.attribute_axes /\
+  GenPat.step_ops = PatSource.compiled_step_ops /\
+  GenPat.head_ops = PatSource.compiled_head_ops /\
+  GenPat.attr_tester_axis = PatSource.attribute_tester_axis /\
+  forallb (fun b => b) GenPat.all_structure_flags = true.
+Proof. repeat split. Qed.
+Print Assumptions model_mirrors_source.
 
 (** The matcher's treatment of one step — node test, then the predicate loop in which flagged or
     number-valued predicates are decided by re-running the forward step from the parent and looking the
